@@ -274,3 +274,11 @@ pub fn init_translations<L: Locale>() -> impl leptos::IntoView {
         <script inner_html = buff />
     }
 }
+
+/// Forwarders for the verification harnesses in /verif (feature `verif_hooks`, off by default).
+#[cfg(all(feature = "verif_hooks", feature = "dynamic_load", feature = "ssr"))]
+pub mod verif_hooks {
+    pub fn write_js_string<W: std::fmt::Write>(out: &mut W, value: &str) -> std::fmt::Result {
+        super::write_js_string(out, value)
+    }
+}
